@@ -138,6 +138,9 @@ func recursesInto(cc *ast.CaseClause, field string, callees ...string) bool {
 				ok = true
 			}
 		}
+		if extraRecursers[name] {
+			ok = true
+		}
 		if !ok {
 			continue
 		}
@@ -159,6 +162,9 @@ func recursesInto(cc *ast.CaseClause, field string, callees ...string) bool {
 	}
 	return found
 }
+
+// extraRecursers: helpers that apply the traversal to every element of a list (filled by traversalExhaustiveness).
+var extraRecursers = map[string]bool{}
 
 type traversal struct {
 	Name    string // display name
@@ -190,6 +196,9 @@ func traversalExhaustiveness(c *Ctx, rule string, only []string) {
 	kinds, _ := c.exprKinds()
 	if len(kinds) != 18 {
 		r.Fatal("expected 18 expression kinds in package ast, found %d", len(kinds))
+	}
+	for h := range c.elementwiseCloners() {
+		extraRecursers[h] = true
 	}
 	want := func(k string) bool {
 		if only == nil {
